@@ -21,13 +21,17 @@ EXTENDS Integers, Sequences, FiniteSets, TLC
 (* minbytes/maxbytes, written "min"/"max" here); for these datatypes already the conversion       *)
 (* looks at the limits, so the ORDER in which a Param's entries are applied matters: the value    *)
 (* is judged against the datatype with the configured overrides applied.                          *)
-Params == {"a", "b", "n", "s", "l", "k"}
+(* z : declared with constant=3 in the class.  A constant (class level or configured) IS the value  *)
+(* of the parameter: the cache holds it from the start, it is never written to the hardware.         *)
+Params == {"a", "b", "n", "s", "l", "k", "z"}
+ClassConst == [z |-> [ty |-> "float", n |-> 6]]
 PInfo == [a |-> [ty |-> "float", lo |-> 0, hi |-> 200, write |-> TRUE,  needscfg |-> FALSE],
           b |-> [ty |-> "int",   lo |-> 0, hi |-> 20,  write |-> FALSE, needscfg |-> FALSE],
           n |-> [ty |-> "float", lo |-> 0, hi |-> 200, write |-> TRUE,  needscfg |-> TRUE],
           s |-> [ty |-> "str",   lo |-> 0, hi |-> 16,  write |-> TRUE,  needscfg |-> FALSE],
           l |-> [ty |-> "tuple", lo |-> 0, hi |-> 6,   write |-> FALSE, needscfg |-> FALSE],
-          k |-> [ty |-> "bytes", lo |-> 0, hi |-> 8,   write |-> FALSE, needscfg |-> FALSE]]
+          k |-> [ty |-> "bytes", lo |-> 0, hi |-> 8,   write |-> FALSE, needscfg |-> FALSE],
+          z |-> [ty |-> "float", lo |-> 0, hi |-> 200, write |-> FALSE, needscfg |-> FALSE]]
 LimTy(p) == IF PInfo[p].ty \in {"float", "int"} THEN PInfo[p].ty ELSE "int"     \* type of the limits of p
 ModProps == {"mp", "op", "export"}         \* export = FALSE: the module and all its parameters are hidden
 MInfo == [mp |-> [ty |-> "int",   lo |-> 0, hi |-> 10, mandatory |-> TRUE],
@@ -105,7 +109,7 @@ EntryClass(cfg, e) ==
 BadClasses == {"wrongtype", "unknownname", "unknownprop", "inverted"}
 Failing(cfg) == {e \in cfg : EntryClass(cfg, e) \in BadClasses}
 Missing(cfg) == {q \in ModProps : MInfo[q].mandatory /\ ~Has(cfg, q, "value")}
-                \cup {p \in Params : PInfo[p].needscfg /\ ~Has(cfg, p, "value")}
+                \cup {p \in Params : PInfo[p].needscfg /\ ~Has(cfg, p, "value") /\ ~Has(cfg, p, "constant")}
 Outside(cfg) == {e \in cfg : EntryClass(cfg, e) = "outside"}
 
 (* the rule: any bad entry or missing item => rejected as a whole; a value of the right type   *)
@@ -118,7 +122,9 @@ Valued(cfg) == {p \in Params : Has(cfg, p, "value")}
 Defaulted(cfg) == {p \in Params : Has(cfg, p, "default") /\ ~Has(cfg, p, "value")}
 MainUnit(cfg) == IF Has(cfg, MainPar, "unit") THEN Get(cfg, MainPar, "unit").n ELSE ClassMainUnit
 ModExported(cfg) == IF Has(cfg, "export", "value") THEN Get(cfg, "export", "value").n = 1 ELSE TRUE
-WriteSet(cfg) == {p \in Valued(cfg) : PInfo[p].write}
+Constd(cfg) == {p \in Params : Has(cfg, p, "constant")} \cup DOMAIN ClassConst
+ConstOf(cfg, p) == IF Has(cfg, p, "constant") THEN Conv(PInfo[p].ty, Get(cfg, p, "constant")) ELSE ClassConst[p]
+WriteSet(cfg) == {p \in Valued(cfg) \ Constd(cfg) : PInfo[p].write}       \* (a constant is never written)
 Flag(cfg, p, prop, dflt) == IF Has(cfg, p, prop) THEN Get(cfg, p, prop).n = 1 ELSE dflt
 ProbePoints(lo, hi) == <<[n |-> lo - 2, ok |-> FALSE], [n |-> lo, ok |-> TRUE],
                          [n |-> hi, ok |-> TRUE], [n |-> hi + 2, ok |-> FALSE]>>
@@ -133,16 +139,17 @@ WhyRejected(cfg) ==
 
 (* what an ACCEPTED module must show (only what the property demands) *)
 Exp(cfg) ==
-  [start    |-> [p \in Valued(cfg) \cup Defaulted(cfg) |->
-                   Conv(PInfo[p].ty, Get(cfg, p, IF p \in Valued(cfg) THEN "value" ELSE "default"))],
+  [start    |-> [p \in Valued(cfg) \cup Defaulted(cfg) \cup Constd(cfg) |->
+                   IF p \in Constd(cfg) THEN ConstOf(cfg, p)      \* (also when a value or default is given as well)
+                   ELSE Conv(PInfo[p].ty, Get(cfg, p, IF p \in Valued(cfg) THEN "value" ELSE "default"))],
    lo       |-> [p \in Params |-> EffLo(cfg, p)],
    hi       |-> [p \in Params |-> EffHi(cfg, p)],
    unit     |-> [p \in {q \in Params : Has(cfg, q, "unit")} \cup DollarParams |->
                    IF Has(cfg, p, "unit") THEN Get(cfg, p, "unit").n ELSE MainUnit(cfg)],
    group    |-> [p \in {q \in Params : Has(cfg, q, "group")} |-> Get(cfg, p, "group").n],
-   constant |-> [p \in {q \in Params : Has(cfg, q, "constant")} |-> Conv(PInfo[p].ty, Get(cfg, p, "constant"))],
+   constant |-> [p \in Constd(cfg) |-> ConstOf(cfg, p)],
    vis      |-> [p \in {q \in Params : Has(cfg, q, "visibility")} |-> Get(cfg, p, "visibility").n],
-   readonly |-> [p \in Params |-> Flag(cfg, p, "readonly", FALSE) \/ Has(cfg, p, "constant")],
+   readonly |-> [p \in Params |-> Flag(cfg, p, "readonly", FALSE) \/ p \in Constd(cfg)],
    exported |-> [p \in Params |-> Flag(cfg, p, "export", TRUE) /\ ModExported(cfg)],
    probes   |-> [p \in Params |-> ProbePoints(EffLo(cfg, p), EffHi(cfg, p))],
    writes   |-> [p \in WriteSet(cfg) |-> Conv(PInfo[p].ty, Get(cfg, p, "value"))],
@@ -152,7 +159,8 @@ Exp(cfg) ==
 (* over all parameters; probes are any points with the observed verdict.                       *)
 StateViol(cfg, st) ==
   LET x == Exp(cfg) IN
-  IF \E p \in DOMAIN x.start : st.start[p] # x.start[p] THEN "start value = configured value converted"
+  IF \E p \in DOMAIN x.constant : st.start[p] # x.constant[p] THEN "cache of a constant parameter = described constant"
+  ELSE IF \E p \in DOMAIN x.start : st.start[p] # x.start[p] THEN "start value = configured value converted"
   ELSE IF \E p \in Params : st.lo[p] # x.lo[p] \/ st.hi[p] # x.hi[p] THEN "described limits"
   ELSE IF \E p \in DOMAIN x.unit : st.unit[p] # x.unit[p] THEN "described unit"
   ELSE IF \E p \in DOMAIN x.vis : st.vis[p] # x.vis[p] THEN "visibility"
